@@ -1851,7 +1851,7 @@ impl Worker {
 }
 
 fn free_port() -> u16 {
-    TcpListener::bind("127.0.0.1:0").unwrap().local_addr().unwrap().port()
+    verif_harness::claim_port()
 }
 
 fn start_worker(bufsz: u64, back_h1: SocketAddr, back_h2: SocketAddr) -> Worker {
